@@ -922,39 +922,54 @@ static const endl_t endl = endl_t();
 inline ostream_t &flush(ostream_t &o) { return o; }
 }
 
+// index-based random access iterators of QList (concrete indices fold in symex; validity is checkable).  At namespace scope so
+// that the std::sort overload below can be selected for them by partial ordering.
+template<typename T, typename L, typename V> struct qm_list_iter {
+    typedef std::random_access_iterator_tag iterator_category;
+    typedef T value_type; typedef int difference_type; typedef V *pointer; typedef V &reference;
+    L *l; int i;
+    qm_list_iter() : l(nullptr), i(0) { }
+    qm_list_iter(L *l_, int i_) : l(l_), i(i_) { }
+    template<typename L2, typename V2> qm_list_iter(const qm_list_iter<T, L2, V2> &o) : l(o.l), i(o.i) { }
+    V &operator*() const { QM_ASSERT(l != nullptr && i >= 0 && i < l->m_n, "QList iterator dereferenced outside [begin,end)"); return l->m_a[i]; }
+    V *operator->() const { QM_ASSERT(l != nullptr && i >= 0 && i < l->m_n, "QList iterator dereferenced outside [begin,end)"); return &l->m_a[i]; }
+    V &operator[](int k) const { return *(*this + k); }
+    qm_list_iter &operator++() { ++i; return *this; }
+    qm_list_iter operator++(int) { qm_list_iter t(*this); ++i; return t; }
+    qm_list_iter &operator--() { --i; return *this; }
+    qm_list_iter operator--(int) { qm_list_iter t(*this); --i; return t; }
+    qm_list_iter &operator+=(int k) { i += k; return *this; }
+    qm_list_iter &operator-=(int k) { i -= k; return *this; }
+    qm_list_iter operator+(int k) const { return qm_list_iter(l, i + k); }
+    qm_list_iter operator-(int k) const { return qm_list_iter(l, i - k); }
+    template<typename L2, typename V2> int operator-(const qm_list_iter<T, L2, V2> &o) const { return i - o.i; }
+    template<typename L2, typename V2> bool operator==(const qm_list_iter<T, L2, V2> &o) const { return i == o.i; }
+    template<typename L2, typename V2> bool operator!=(const qm_list_iter<T, L2, V2> &o) const { return i != o.i; }
+    template<typename L2, typename V2> bool operator<(const qm_list_iter<T, L2, V2> &o) const { return i < o.i; }
+    template<typename L2, typename V2> bool operator>(const qm_list_iter<T, L2, V2> &o) const { return i > o.i; }
+    template<typename L2, typename V2> bool operator<=(const qm_list_iter<T, L2, V2> &o) const { return i <= o.i; }
+    template<typename L2, typename V2> bool operator>=(const qm_list_iter<T, L2, V2> &o) const { return i >= o.i; }
+};
+// std::sort on a QList: libstdc++'s std::sort is __introsort_loop (which does nothing for at most _S_threshold = 16
+// elements) followed by __final_insertion_sort (= __insertion_sort for at most 16 elements).  A model list never holds more
+// than its static capacity, so for capacities <= 16 the call below IS what libstdc++ executes; only the code paths for longer
+// ranges (median-of-3 partitioning, heap sort), which symbolic execution would otherwise have to explore, are left out.
+namespace std {
+template<typename T, typename L, typename V, typename Cmp>
+inline void sort(qm_list_iter<T, L, V> first, qm_list_iter<T, L, V> last, Cmp comp)
+{
+    static_assert(L::qm_capacity <= 16, "std::sort model: list capacity above libstdc++'s insertion-sort threshold");
+    if (first != last) std::__insertion_sort(first, last, __gnu_cxx::__ops::__iter_comp_iter(comp));
+}
+}
 // ---------------------------------------------------------------- QList (fixed capacity, raw-pointer iterators)
 template<typename T, int CAP = QM_LIST_CAP> class QList
 {
 public:
     int m_n;
     T m_a[CAP];
-    // index-based random access iterators (concrete indices fold in symex; validity is checkable)
-    template<typename L, typename V> struct iter_base {
-        typedef std::random_access_iterator_tag iterator_category;
-        typedef T value_type; typedef int difference_type; typedef V *pointer; typedef V &reference;
-        L *l; int i;
-        iter_base() : l(nullptr), i(0) { }
-        iter_base(L *l_, int i_) : l(l_), i(i_) { }
-        template<typename L2, typename V2> iter_base(const iter_base<L2, V2> &o) : l(o.l), i(o.i) { }
-        V &operator*() const { QM_ASSERT(l != nullptr && i >= 0 && i < l->m_n, "QList iterator dereferenced outside [begin,end)"); return l->m_a[i]; }
-        V *operator->() const { QM_ASSERT(l != nullptr && i >= 0 && i < l->m_n, "QList iterator dereferenced outside [begin,end)"); return &l->m_a[i]; }
-        V &operator[](int k) const { return *(*this + k); }
-        iter_base &operator++() { ++i; return *this; }
-        iter_base operator++(int) { iter_base t(*this); ++i; return t; }
-        iter_base &operator--() { --i; return *this; }
-        iter_base operator--(int) { iter_base t(*this); --i; return t; }
-        iter_base &operator+=(int k) { i += k; return *this; }
-        iter_base &operator-=(int k) { i -= k; return *this; }
-        iter_base operator+(int k) const { return iter_base(l, i + k); }
-        iter_base operator-(int k) const { return iter_base(l, i - k); }
-        template<typename L2, typename V2> int operator-(const iter_base<L2, V2> &o) const { return i - o.i; }
-        template<typename L2, typename V2> bool operator==(const iter_base<L2, V2> &o) const { return i == o.i; }
-        template<typename L2, typename V2> bool operator!=(const iter_base<L2, V2> &o) const { return i != o.i; }
-        template<typename L2, typename V2> bool operator<(const iter_base<L2, V2> &o) const { return i < o.i; }
-        template<typename L2, typename V2> bool operator>(const iter_base<L2, V2> &o) const { return i > o.i; }
-        template<typename L2, typename V2> bool operator<=(const iter_base<L2, V2> &o) const { return i <= o.i; }
-        template<typename L2, typename V2> bool operator>=(const iter_base<L2, V2> &o) const { return i >= o.i; }
-    };
+    enum { qm_capacity = CAP };
+    template<typename L, typename V> using iter_base = qm_list_iter<T, L, V>;
     typedef iter_base<QList, T> iterator;
     typedef iter_base<const QList, const T> const_iterator;
     typedef T value_type;
@@ -1219,6 +1234,10 @@ public:
     int m_day;
     QDate() : m_day(QM_DAY_INVALID) { }
     explicit QDate(int day, bool) : m_day(day) { }
+    // user-provided copy operations: member-wise typed copies (a trivially copyable small struct is returned coerced into
+    // integers and copied with a byte-wise memcpy, which CBMC does not constant-propagate)
+    QDate(const QDate &o) : m_day(o.m_day) { }
+    QDate &operator=(const QDate &o) { m_day = o.m_day; return *this; }
     bool isValid() const { return m_day != QM_DAY_INVALID; }
     bool isNull() const { return !isValid(); }
     static QDate currentDate() { return QDate(qm_clock_day, true); }
@@ -1249,6 +1268,8 @@ public:
     bool m_utc;
     QDateTime() : m_day(QM_DAY_INVALID), m_ms(0), m_utc(false) { }
     QDateTime(int day, int ms) : m_day(day), m_ms(ms), m_utc(false) { }
+    QDateTime(const QDateTime &o) : m_day(o.m_day), m_ms(o.m_ms), m_utc(o.m_utc) { }       // see QDate
+    QDateTime &operator=(const QDateTime &o) { m_day = o.m_day; m_ms = o.m_ms; m_utc = o.m_utc; return *this; }
     bool isValid() const { return m_day != QM_DAY_INVALID; }
     bool isNull() const { return !isValid(); }
     static QDateTime currentDateTime() { return QDateTime(qm_clock_day, qm_clock_ms); }
